@@ -158,7 +158,7 @@ def env_projection(env):
 
 
 def roundtrips(ck, n):
-    sys.path.insert(0, '/repo')
+    sys.path.insert(0, os.environ.get('VERIF_REPO', '/repo'))
     import random
     from bfg9000.environment import Environment
     from bfg9000.path import Path, Root, InstallRoot
@@ -372,7 +372,7 @@ def e2e_cases(ck, n):
 
 def main(argv):
     ck = Check('C09', argv)
-    sys.path.insert(0, '/repo')
+    sys.path.insert(0, os.environ.get('VERIF_REPO', '/repo'))
     from bfg9000.environment import EnvVarDict
     # (a) model check + replay
     mo = 4 if ck.quick else 5
